@@ -33,7 +33,8 @@
    the others are plausible regressions used to show that the invariants are not vacuous; among them
      MappedListEntryUnmatched - only the incoming address is brought to canonical form, the list entries
                           are not, so an entry written as ::ffff:a.b.c.d matches nobody (a seeded change
-                          the first version of this check missed: list entries had one representation). *)
+                          the first version of this check missed: list entries had one representation)
+     XffNameCaseSensitive - the field is only found under the exact spelling X-Forwarded-For. *)
 EXTENDS Naturals, Sequences, FiniteSets, TLC
 
 CONSTANTS
@@ -42,6 +43,8 @@ CONSTANTS
   V4Addrs,   \* \subseteq Addrs: the IPv4 addresses (only they have an IPv4-mapped IPv6 form ::ffff:a.b.c.d)
   Duals,     \* \subseteq BOOLEAN, offered to Init: TRUE = the server listens on a dual-stack address ("::"),
              \* so the peer_addr() of an IPv4 client is its IPv4-mapped form
+  NameCases, \* \subseteq BOOLEAN, offered to requests: TRUE = the field NAME is not spelt `X-Forwarded-For` but in
+             \* another case (x-forwarded-for as HTTP/2 gateways emit it, X-FORWARDED-FOR, x-Forwarded-for)
   ListForms, \* \subseteq BOOLEAN, offered to Init: TRUE = the IPv4 entries of the blacklist file are written in
              \* IPv4-mapped form (::ffff:127.0.0.2 or ::ffff:7f00:2) - still entries naming those addresses
   Garbage,   \* X-Forwarded-For entries that are not IP addresses (strings, disjoint from Addrs)
@@ -53,13 +56,14 @@ CONSTANTS
 
 HistoricalDevs == {"ForbiddenTrustsXff", "XffUntrimmed", "MappedPeerUnmatched"}
 MutantDevs == {"CacheBeforeBlacklist", "ProxyUnchecked", "RedirectUnchecked", "OnlyProxiesChecked",
-               "NoConnCondition", "IgnoresXff", "BlockSkipsHandlerCheck", "MappedListEntryUnmatched"}
+               "NoConnCondition", "IgnoresXff", "BlockSkipsHandlerCheck", "MappedListEntryUnmatched",
+               "XffNameCaseSensitive"}
 DevNames == HistoricalDevs \cup MutantDevs
 
 ASSUME /\ Dev \subseteq DevNames
        /\ Peers \subseteq Addrs
        /\ V4Addrs \subseteq Addrs
-       /\ Duals \subseteq BOOLEAN /\ ListForms \subseteq BOOLEAN
+       /\ Duals \subseteq BOOLEAN /\ ListForms \subseteq BOOLEAN /\ NameCases \subseteq BOOLEAN
        /\ Garbage \cap Addrs = {}
        /\ \A l \in Lists : l \subseteq Addrs
 
@@ -70,12 +74,22 @@ Results    == {"Dropped", "Forbidden403", "Served"}
 
 (***************************************************************************)
 (* X-Forwarded-For values.  An entry is a token and a flag saying whether  *)
-(* it is written with a space after the preceding comma; the first entry   *)
-(* never has one (the request parser strips leading blanks of the value).  *)
+(* it is written with optional white space (blanks, tabs; RFC 7230 OWS)    *)
+(* around it, i.e. after the preceding comma and/or before the next one;   *)
+(* the first entry never has any (the request parser strips the leading    *)
+(* blanks of the value).  A token that is not an IP address (Garbage)      *)
+(* stands for: a word, the empty entry (so `,` and a blank-only value are  *)
+(* lists of garbage), an out-of-range or short dotted form, digits from    *)
+(* other scripts.  How the header NAME is spelt (lower/UPPER/Mixed case),  *)
+(* where the field sits among 0..90 other fields and how the blacklist     *)
+(* FILE is laid out (order, duplicates, padding entries nobody uses, CRLF, *)
+(* missing final newline, spelling of IPv6 entries, `mode` omitted for the *)
+(* default) are projections chosen by the harness: the list is a SET of    *)
+(* addresses and the header is a field, so none of this may matter.        *)
 (***************************************************************************)
 Entry     == [a : Addrs \cup Garbage, sp : BOOLEAN]
-NoXff     == [present |-> FALSE, es |-> <<>>]
-XffOfLen(k) == { [present |-> TRUE, es |-> s] : s \in { s \in [1..k -> Entry] : ~s[1].sp } }
+NoXff     == [present |-> FALSE, nc |-> FALSE, es |-> <<>>]
+XffOfLen(k) == { [present |-> TRUE, nc |-> b, es |-> s] : s \in { s \in [1..k -> Entry] : ~s[1].sp }, b \in NameCases }
 XffValues(n) == {NoXff} \cup UNION { XffOfLen(k) : k \in 1..n }
 AllXff == XffValues(MaxXff)      \* constant: evaluated once by TLC
 
@@ -105,6 +119,14 @@ Decide(mode, list, peer, x) ==
   ELSE \* "clients whose own and forwarded addresses are all unlisted are served normally"
        {"Served"}
 
+\* Several X-Forwarded-For lines in one request.  The statement does not say which of them speaks (RFC 7230
+\* 3.2.2 reads them as one comma-joined list, Humphrey's Headers::get takes the first line): every reading is
+\* accepted - each line alone and the joined list.  For a listed peer all readings agree (Lines_ListedStrict).
+Joined(x1, x2) == [present |-> x1.present \/ x2.present, nc |-> FALSE, es |-> x1.es \o x2.es]
+DecideLines(mode, list, peer, x1, x2) ==
+  IF ~x2.present THEN Decide(mode, list, peer, x1)
+  ELSE Decide(mode, list, peer, x1) \cup Decide(mode, list, peer, x2) \cup Decide(mode, list, peer, Joined(x1, x2))
+
 (***************************************************************************)
 (* Part 2.  The code.  Decision functions first (parametrised by the       *)
 (* deviation set D so that generation can evaluate single deviations),     *)
@@ -130,7 +152,8 @@ Parsable(D, e) == IsAddr(e) /\ (("XffUntrimmed" \in D) => ~e.sp)
 FromHeaders(D, peer, x) ==
   LET ps == SelectSeq(x.es, LAMBDA e : Parsable(D, e))
       n  == Len(ps)
-  IN IF ~x.present \/ n = 0 \/ "IgnoresXff" \in D THEN [origin |-> peer, proxies |-> <<>>]
+      unseen == "XffNameCaseSensitive" \in D /\ x.nc     \* headers.get("X-Forwarded-For") compared case-sensitively
+  IN IF ~x.present \/ n = 0 \/ "IgnoresXff" \in D \/ unseen THEN [origin |-> peer, proxies |-> <<>>]
      ELSE [origin |-> ps[n].a, proxies |-> Append([i \in 1..(n - 1) |-> ps[i].a], peer)]
 
 \* server.rs verify_connection: TRUE = the connection is handed to the thread pool
